@@ -1,4 +1,5 @@
 import Driver.Proto
+import GoMailModel.Mime.Addr
 import GoMailModel.Codec.LineBreaker
 import GoMailModel.Codec.EncodedWord
 import GoMailModel.Mime.Fold
@@ -47,6 +48,14 @@ def handle (toks : List String) : String :=
   | ["encw", enc, charset, s] =>
     match decNat enc, decBytes charset, decBytes s with
     | some e, some cs, some v => encBytes (EncodedWord.wordEncode (if e == 0 then .q else .b) cs v)
+    | _, _, _ => "bad-arg"
+  | ["fmtaddr", n, a] =>
+    match decBytes n, decBytes a with
+    | some n, some a => encBytes (GoMail.Addr.formatAddress n a)
+    | _, _ => "bad-arg"
+  | ["addrstr", n, st, sp] =>
+    match decBytes n, decBytes st, decBytes sp with
+    | some n, some st, some sp => encBytes (GoMail.Addr.addressString n st sp)
     | _, _, _ => "bad-arg"
   | ["sanit", s] =>
     match decBytes s with
